@@ -152,10 +152,11 @@ DECIDABLE predicate on rune strings, no size bound): plain words, also with plac
 (`{x}`, `a{x}b`, `{$ENV}`, `{}` — the formatter keeps their `{` back for one character like a
 block brace), any non-CR white space /
 indentation / blank lines, arbitrarily nested `… {⏎ … ⏎}` blocks, simple double-quoted strings
-(one line, no backslash, followed by white space), comments (own line or after a
+(one line, no backslash, followed by white space), simple backquoted strings (one line, any
+characters incl. backslash, followed by white space), comments (own line or after a
 word; any text without backslash / trailing blank).  NOT covered by these two
 theorems (only by the correspondence stream and the impl-side oracle): multi-line or escaped
-quoted strings, backquoted / heredoc tokens, line continuations, `#`/`"`/`<` inside words, CR, comments
+quoted strings, heredoc tokens, line continuations, `#`/`"`/`<` inside words, CR, comments
 directly after a brace on the same line or directly before `{`.
 -/
 
@@ -197,6 +198,10 @@ example : inW (runes "{$SITE}:443 {\n  root * {env.ROOT}/www\n  {args[0]} a{x}b 
   decide
 set_option maxRecDepth 100000 in
 example : format (runes "a\n{x} b") = runes "a \n{x} b\n" := by decide
+-- backquoted strings: literal, a backslash is an ordinary character in them
+set_option maxRecDepth 100000 in
+example : inW (runes "root  `C:\\sites\\a b`  {\n respond `say \"hi\" # {x}` 200\n}\n``") = true := by
+  decide
 -- excluded, and indeed failing: one-line block, dangling brace, brace first on its line, CR inside a word
 set_option maxRecDepth 100000 in
 example : inW (runes "a { b }") = false ∧ inW (runes "a {") = false ∧ inW (runes "a\n{\n}") = false ∧
